@@ -105,7 +105,7 @@ def flattenedSum (terms : List Expr) : Expr :=
   | [x] => x
   | xs => .sum xs
 
-/-- `none`: a zero factor was met (the product is the constant 0) -/
+-- `none`: a zero factor was met (the product is the constant 0)
 mutual
 def flatP : Expr → Option (List Expr)
   | .prod cs => flatPL cs
@@ -141,7 +141,7 @@ def partitions : List Nat → Nat → List (List (List Nat))
   | _, 0 => []
   | s, 1 => [[s]]
   | s, k + 2 =>
-    (List.range' 1 (s.length - (k + 2) + 1)).flatMap fun size =>
+    (List.range' 1 (s.length + 1 - (k + 2))).flatMap fun size =>
       (splits s size).flatMap fun p => (partitions p.2 (k + 1)).map (fun q => p.1 :: q)
 
 inductive AC where
@@ -240,6 +240,17 @@ def identVars (C : List Name) (vfirst : Name → Name → Bool) : List Expr → 
     | _, _, _, _ => []
   | _ => []
 
+/-- `map_commut_assoc` once the non-variable children have been unified with the target's children -/
+def runAC (k : AC) (os : List Expr) (plain : List Name) (us : List URec)
+    (rows : List (List (Nat × List URec))) : List URec :=
+  matchChildren k os plain (!rows.isEmpty) us rows URec.empty (List.range os.length)
+
+/-- the children of a target of the same class (`isinstance(other, type(expr))`) -/
+def acTarget : AC → Expr → Option (List Expr)
+  | .sum, .sum os => some os
+  | .prod, .prod os => some os
+  | _, _ => none
+
 mutual
 def unif (C : List Name) (vfirst : Name → Name → Bool) : Expr → Expr → List URec → List URec
   | .const c, o, us => if (Expr.const c).beq o then us else []
@@ -309,17 +320,14 @@ def unifRows (C : List Name) (vfirst : Name → Name → Bool) : List Expr → L
 /-- `map_modulo_identity` wrapped around `map_commut_assoc` -/
 def unifAC (C : List Name) (vfirst : Name → Name → Bool) (k : AC) (cs : List Expr) (o : Expr)
     (us : List URec) : List URec :=
-  let run := fun (os : List Expr) (us' : List URec) =>
-    let rows := unifRows C vfirst cs os us'
-    matchChildren k os (plainNames C cs) (!rows.isEmpty) us' rows URec.empty (List.range os.length)
   if cs.length != 2 || hasChildren o then
-    match k, o with
-    | .sum, .sum os => run os us
-    | .prod, .prod os => run os us
-    | _, _ => []
+    match acTarget k o with
+    | some os => runAC k os (plainNames C cs) us (unifRows C vfirst cs os us)
+    | none => []
   else
     (identVars C vfirst cs).flatMap fun x =>
-      run [k.ident, o] (unifyMany us (URec.ofEq x k.ident))
+      runAC k [k.ident, o] (plainNames C cs) (unifyMany us (URec.ofEq x k.ident))
+        (unifRows C vfirst cs [k.ident, o] (unifyMany us (URec.ofEq x k.ident)))
 end
 
 mutual
@@ -338,6 +346,26 @@ def supportedL : List Expr → Bool
 def supportedK : List (Name × Expr) → Bool
   | [] => true
   | (_, c) :: cs => supported c && supportedK cs
+end
+
+-- templates the soundness theorem speaks about: no empty sum or product (`pymbolic.flatten`
+-- never produces one)
+mutual
+def wfT : Expr → Bool
+  | .const _ => true | .var _ => true
+  | .sum cs => !cs.isEmpty && wfTL cs | .prod cs => !cs.isEmpty && wfTL cs
+  | .land cs => wfTL cs | .lor cs => wfTL cs | .min cs => wfTL cs | .max cs => wfTL cs
+  | .quot a b => wfT a && wfT b | .pow a b => wfT a && wfT b
+  | .call _ args kw => wfTL args && wfTK kw
+  | .sub a i => wfT a && wfT i | .attr a _ => wfT a
+  | .cmp _ a b => wfT a && wfT b | .lnot a => wfT a
+  | .ite c t e => wfT c && wfT t && wfT e
+def wfTL : List Expr → Bool
+  | [] => true
+  | c :: cs => wfT c && wfTL cs
+def wfTK : List (Name × Expr) → Bool
+  | [] => true
+  | (_, c) :: cs => wfT c && wfTK cs
 end
 
 /-! ## front end -/
